@@ -70,6 +70,11 @@ fn mode_write(cases: &[Value], trace: &Trace) {
             .block_size(shift)
             .default_compression(method_of(lf))
             .listfile_option(ListfileOption::Generate);
+        let crc = c.get("crc").and_then(|x| x.as_bool()).unwrap_or(false);
+        if crc {
+            // sector checksums on; the (attributes) file that generate_crcs switches on is switched off again
+            b = b.generate_crcs(true).attributes_option(wow_mpq::AttributesOption::None);
+        }
         for (fi, f) in ga(c, "files").iter().enumerate() {
             let name = gs(f, "name");
             let len = length_of(gs(f, "lc"), ssize);
@@ -92,7 +97,7 @@ fn mode_write(cases: &[Value], trace: &Trace) {
         let bytes = if res == "ok" { std::fs::read(&path).unwrap_or_default() } else { Vec::new() };
         let _ = std::fs::remove_file(&path);
         let absent = ["absent.txt", "Data\\File99.bin"];
-        trace.ev(json!({"ev":"Archive","case":id,"dir":1,"ver":ver,"shift":shift,"listfile":lf,"res":res,
+        trace.ev(json!({"ev":"Archive","case":id,"dir":1,"ver":ver,"shift":shift,"listfile":lf,"crc":crc,"res":res,
             "alen": bytes.len(), "bytes": bytes_json(&bytes), "files": files_json,
             "absent": absent.iter().map(|a| json!({"name": a, "nb": bytes_json(a.as_bytes())})).collect::<Vec<_>>() }));
     }
@@ -211,22 +216,29 @@ fn mode_read(cases: &[Value], trace: &Trace) {
         let c = &cases[ci];
         let id = gi(c, "case");
         let mut evs = Vec::new();
-        evs.push(json!({"ev":"Reset","case":id,"dir":2,"ver":gi(c,"ver"),"shift":gi(c,"shift"),
+        evs.push(json!({"ev":"Reset","case":id,"dir":2,"ver":gi(c,"ver"),"shift":gi(c,"shift"),"crc":false,
             "names": c["names"].clone(), "lens": c["lens"].clone(), "toks": c["toks"].clone(),
-            "cfg": c["cfg"].clone()}));
+            "twin": c["twin"].clone(), "cfg": c["cfg"].clone()}));
         let mut std = open_variant(gs(c, "std"));
-        let mut lib = open_variant(gs(c, "lib"));
-        evs.push(json!({"ev":"Open","case":id,"std":std.res,"lib":lib.res}));
-        evs.push(json!({"ev":"List","case":id,"listlabels":gs(c,"listlabels"),"std":list_of(&mut std),"lib":list_of(&mut lib)}));
+        // variant archives: file i is laid out under its j-th combination of named deviations in vars[j]
+        let mut vars: Vec<Opened> = ga(c, "vars").iter().map(|p| open_variant(p.as_str().unwrap_or(""))).collect();
+        evs.push(json!({"ev":"Open","case":id,"std":std.res,"vars":vars.iter().map(|v| v.res.clone()).collect::<Vec<_>>()}));
+        evs.push(json!({"ev":"List","case":id,"std":list_of(&mut std)}));
         let labels = ga(c, "labels");
         for (i, n) in ga(c, "names").iter().enumerate() {
             let name = n.as_str().unwrap_or("");
-            evs.push(json!({"ev":"Read","case":id,"name":name,"labels":labels[i].clone(),
-                "std":read_all(&mut std, name),"lib":read_all(&mut lib, name)}));
+            let stdr = read_all(&mut std, name);
+            let mut devs = Vec::new();
+            for (j, lb) in labels[i].as_array().map(|a| a.as_slice()).unwrap_or(&[]).iter().enumerate() {
+                if j < vars.len() {
+                    devs.push(json!({"labels": lb.clone(), "r": read_all(&mut vars[j], name)}));
+                }
+            }
+            evs.push(json!({"ev":"Read","case":id,"name":name,"std":stdr,"devs":devs}));
         }
         for a in ga(c, "absent") {
             let name = a.as_str().unwrap_or("");
-            evs.push(json!({"ev":"Absent","case":id,"name":name,"std":read_all(&mut std, name),"lib":read_all(&mut lib, name)}));
+            evs.push(json!({"ev":"Absent","case":id,"name":name,"std":read_all(&mut std, name)}));
         }
         evs.push(json!({"ev":"Done","case":id}));
         *slots[ci].lock().unwrap() = evs;
